@@ -14,10 +14,12 @@ rotation keep old data readable.
 What is *not* a theorem (labelled in props/C23.json): freshness of the random IVs
 (`crypto/rand`) and secrecy of the cipher.
 
-**Finding F23a** (`C23_no_plaintext_fails`, replayed on the real code by the harness): with an
-encryption key and `EncryptionKeyRotationDuration` longer than the time since the Unix epoch
-(e.g. `math.MaxInt64`, "never rotate"), `LatestDataKey` returns `kr.dataKeys[0]` = nil on a
-fresh registry and every WAL, value-log and table file is written in plaintext.
+**Finding F23a, fixed by 497bf84.** Before the fix, with an encryption key and
+`EncryptionKeyRotationDuration` longer than the time since the Unix epoch (e.g. `math.MaxInt64`,
+"never rotate"), `LatestDataKey` returned `kr.dataKeys[0]` = nil on a fresh registry and every
+WAL, value-log and table file was written in plaintext. Since the fix the last key is reused
+only if it exists; `C23_no_plaintext` proves the full statement with no side condition and
+`C23_F23a_regression_witness` keeps the old rule's counterexample.
 -/
 namespace Badger
 open Crypto
@@ -154,10 +156,6 @@ theorem C23_log_record_bytes (E : BlockFn) (master : Bytes) (keyOf : Nat → Byt
 
 namespace Crypto
 
-/-- registry invariant: a key with the largest id exists unless no key was ever created -/
-def RegOK (r : Registry) : Prop :=
-  (r.nextKeyID = 0 ∧ r.lastCreated = 0) ∨ (r.lookup r.nextKeyID).isSome = true
-
 theorem lookup_new (l : List DataKey) (dk : DataKey) :
     (l.filter (fun k => k.id != dk.id) ++ [dk]).find? (fun k => k.id == dk.id) = some dk := by
   rw [List.find?_append]
@@ -168,26 +166,16 @@ theorem lookup_new (l : List DataKey) (dk : DataKey) :
     simpa using this
   simp [this]
 
-/-- Under the side condition, `LatestDataKey` with a master key always yields a data key. -/
-theorem latest_some (r : Registry) (now : Nat) (fk : Bytes) (fiv : Nat) (hm : r.master ≠ [])
-    (hok : RegOK r) (hrot : r.rotationNs ≤ sinceNs now 0) :
-    ((r.latestDataKey now fk fiv).2).isSome = true ∧ RegOK (r.latestDataKey now fk fiv).1 ∧
-    (r.latestDataKey now fk fiv).1.master = r.master ∧
-    (r.latestDataKey now fk fiv).1.rotationNs = r.rotationNs := by
-  unfold Registry.latestDataKey
+/-- With a master key, `LatestDataKey` always yields a data key — for every registry state,
+    clock and rotation interval (this is what fix 497bf84 established). -/
+theorem latest_some (r : Registry) (now : Nat) (fk : Bytes) (fiv : Nat) (hm : r.master ≠ []) :
+    ((r.latestDataKey now fk fiv).2).isSome = true ∧
+    (r.latestDataKey now fk fiv).1.master = r.master := by
+  unfold Registry.latestDataKey Registry.newDataKey
   simp only [hm, if_false]
-  by_cases hb : sinceNs now r.lastCreated < r.rotationNs
-  · simp only [hb, if_true]
-    rcases hok with ⟨h0, h1⟩ | h
-    · rw [h1] at hb; omega
-    · exact ⟨h, Or.inr h, by simp, by simp⟩
-  · simp only [hb, if_false]
-    refine ⟨by simp, Or.inr ?_, by simp, by simp⟩
-    simp only [Registry.lookup]
-    have := lookup_new r.dataKeys
-      { id := r.nextKeyID + 1, data := fk, createdAt := now / 1000000000, iv := fiv }
-    simp only at this
-    rw [this]; rfl
+  split
+  · split <;> exact ⟨rfl, rfl⟩
+  · exact ⟨rfl, rfl⟩
 
 def AllEnc (ws : List Write) : Prop := ∀ w ∈ ws, w.user = true → w.payload.isEnc = true
 
@@ -245,38 +233,31 @@ theorem allEnc_logHeader (kind : FileKind) (dk : Option DataKey) (base : Nat) :
 def LogsKeyed (d : Db) : Prop := ∀ lf ∈ d.logs, lf.dk.isSome = true
 
 theorem runWrites_allEnc (E : BlockFn) (evs : List Ev) :
-    ∀ (d : Db), d.reg.master ≠ [] → RegOK d.reg → LogsKeyed d →
-      (∀ ev ∈ evs, ∀ t, ev.time = some t → d.reg.rotationNs ≤ sinceNs t 0) →
-      AllEnc (runWrites E d evs) := by
+    ∀ (d : Db), d.reg.master ≠ [] → LogsKeyed d → AllEnc (runWrites E d evs) := by
   induction evs with
-  | nil => intro d _ _ _ _ w hw; cases hw
+  | nil => intro d _ _ w hw; cases hw
   | cons ev evs ih =>
-    intro d hm hok hl hrot
-    have hrot' : ∀ ev' ∈ evs, ∀ t, ev'.time = some t → d.reg.rotationNs ≤ sinceNs t 0 :=
-      fun ev' h => hrot ev' (List.mem_cons_of_mem _ h)
+    intro d hm hl
     simp only [runWrites]
     cases ev with
     | newLog kind now fk fiv base =>
-      have hr := hrot _ (List.mem_cons_self ..) now rfl
-      obtain ⟨hs, hok', hm', hr'⟩ := latest_some d.reg now fk fiv hm hok hr
+      obtain ⟨hs, hm'⟩ := latest_some d.reg now fk fiv hm
       refine allEnc_append ?_ ?_
       · simp only [step]
         exact allEnc_append (allEnc_newKey E _ _ _) (allEnc_logHeader _ _ _)
       · apply ih
         · simp only [step]; rw [hm']; exact hm
-        · simp only [step]; exact hok'
         · intro lf hlf
           simp only [step] at hlf
           rcases List.mem_append.mp hlf with h | h
           · exact hl lf h
           · simp at h; subst h; exact hs
-        · simp only [step]; rw [hr']; exact hrot'
     | append i e crc =>
       simp only [step]
       cases hi : d.logs[i]? with
       | none =>
         simp only
-        exact allEnc_append (by intro w hw; cases hw) (ih d hm hok hl hrot')
+        exact allEnc_append (by intro w hw; cases hw) (ih d hm hl)
       | some lf =>
         simp only
         have hmem : lf ∈ d.logs := List.mem_of_getElem? hi
@@ -287,16 +268,13 @@ theorem runWrites_allEnc (E : BlockFn) (evs : List Ev) :
           | some k => exact allEnc_logRecord _ _ _ _ _ _
         · apply ih
           · exact hm
-          · exact hok
           · intro lf' hlf'
             simp only at hlf'
             rcases List.mem_or_eq_of_mem_set hlf' with h | h
             · exact hl lf' h
             · subst h; exact hk
-          · exact hrot'
     | table now fk fiv bs iiv idx footer =>
-      have hr := hrot _ (List.mem_cons_self ..) now rfl
-      obtain ⟨hs, hok', hm', hr'⟩ := latest_some d.reg now fk fiv hm hok hr
+      obtain ⟨hs, hm'⟩ := latest_some d.reg now fk fiv hm
       refine allEnc_append ?_ ?_
       · simp only [step]
         refine allEnc_append (allEnc_newKey E _ _ _) ?_
@@ -305,11 +283,9 @@ theorem runWrites_allEnc (E : BlockFn) (evs : List Ev) :
         | some k => exact allEnc_table _ _ _ _ _
       · apply ih
         · simp only [step]; rw [hm']; exact hm
-        · simp only [step]; exact hok'
         · exact hl
-        · simp only [step]; rw [hr']; exact hrot'
     | manifest b =>
-      refine allEnc_append ?_ (ih d hm hok hl hrot')
+      refine allEnc_append ?_ (ih d hm hl)
       intro w hw hu
       simp [step] at hw; subst hw; simp at hu
 
@@ -321,35 +297,33 @@ def C23_no_plaintextStatement : Prop :=
   ∀ (E : BlockFn) (master : Bytes) (rot : Int) (evs : List Ev), master ≠ [] →
     ∀ w ∈ runWrites E ⟨Registry.empty master rot, []⟩ evs, w.user = true → w.payload.isEnc = true
 
-/-- **Finding F23a: the full statement is false for the code as it is.** Rotation interval
-    `math.MaxInt64` ns, fresh registry, clock = 2026: the new value-log file gets a nil data key
-    and the entry's `key ‖ value` is written as is. -/
-theorem C23_no_plaintext_fails : ¬ C23_no_plaintextStatement := by
-  intro h
-  have := h (fun _ _ _ => 0) [1] (2 ^ 63 - 1)
-    [.newLog .vlog 1790000000000000000 [9] 3 4,
-     .append 0 ⟨[107], [118], 0, 0, 0⟩ []] (by decide)
-    ⟨.vlog, .plain [107, 118], true⟩ (by decide) rfl
-  exact absurd this (by decide)
+/-- **No plaintext** (full statement, no side condition since fix 497bf84). With an encryption
+    key, for every cipher, every rotation interval, every clock and every history of log-file
+    creations, appends, table builds (flushes, compactions, stream writers) and MANIFEST changes:
+    every write carrying user key / value bytes — the `key ‖ value` part of every WAL and
+    value-log record, every table block, and the table index with its block base keys and bloom
+    filter — is an `Enc` payload. Plaintext by design and free of user bytes: record headers
+    (meta, user meta, key/value lengths, expiry) and CRCs, log-file headers (key id, base IV),
+    block/index IVs, table footers, MANIFEST, LOCK. -/
+theorem C23_no_plaintext : C23_no_plaintextStatement := by
+  intro E master rot evs hm
+  exact runWrites_allEnc E evs ⟨Registry.empty master rot, []⟩ hm (by intro lf h; cases h)
 
-/-- **No plaintext (partial: rotation interval not longer than the age of the Unix epoch).**
-    With an encryption key, for every cipher and every history of log-file creations, appends,
-    table builds (flushes, compactions, stream writers) and MANIFEST changes whose clocks `t`
-    satisfy `rotation ≤ t − epoch`: every write carrying user key / value bytes — the
-    `key ‖ value` part of every WAL and value-log record, every table block, and the table index
-    with its block base keys and bloom filter — is an `Enc` payload. Plaintext by design and
-    free of user bytes: record headers (meta, user meta, key/value lengths, expiry) and CRCs,
-    log-file headers (key id, base IV), block/index IVs, table footers, MANIFEST, LOCK. -/
-theorem C23_no_plaintext_partial (E : BlockFn) (master : Bytes) (rot : Int) (evs : List Ev)
-    (hm : master ≠ [])
-    (hrot : ∀ ev ∈ evs, ∀ t, ev.time = some t → rot ≤ sinceNs t 0) :
-    ∀ w ∈ runWrites E ⟨Registry.empty master rot, []⟩ evs, w.user = true → w.payload.isEnc = true :=
-  runWrites_allEnc E evs ⟨Registry.empty master rot, []⟩ hm (Or.inl ⟨rfl, rfl⟩)
-    (by intro lf h; cases h) hrot
+/-- Regression witness for finding F23a (fixed by 497bf84). Under the OLD rule
+    (`latestDataKeyOld`: age test first, then `kr.dataKeys[kr.nextKeyID]` whatever it is) a fresh
+    registry with a master key, rotation interval `math.MaxInt64` ns and the clock in 2026 hands
+    out NO data key — the log file is then bootstrapped with key id 0 and `logRecordWrites`
+    emits the entry's `key ‖ value` as a `Plain` payload — while the rule in the tree creates
+    data key 1. -/
+theorem C23_F23a_regression_witness :
+    ((Registry.empty [1] (2 ^ 63 - 1)).latestDataKeyOld 1790000000000000000 [9] 3).2 = none ∧
+    (logRecordWrites .vlog none 4 20 ⟨[107], [118], 0, 0, 0⟩ []).any
+      (fun w => w.user && !w.payload.isEnc) = true ∧
+    (((Registry.empty [1] (2 ^ 63 - 1)).latestDataKey 1790000000000000000 [9] 3).2.map (·.id)) = some 1 := by
+  decide
 
--- non-vacuity: a 10-day rotation in 2026 satisfies the side condition, and user writes exist
-example : (864000000000000 : Int) ≤ sinceNs 1790000000000000000 0 := by decide
-example : (runWrites (fun _ _ _ => 0) ⟨Registry.empty [1] 864000000000000, []⟩
+-- non-vacuity: user writes exist and are encrypted, also with the "never rotate" interval
+example : (runWrites (fun _ _ _ => 0) ⟨Registry.empty [1] (2 ^ 63 - 1), []⟩
     [.newLog .vlog 1790000000000000000 [9] 3 4, .append 0 ⟨[107], [118], 0, 0, 0⟩ []]).any
       (fun w => w.user && w.payload.isEnc) = true := by decide
 
@@ -418,27 +392,32 @@ theorem C23_rotation (r : Registry) (now : Nat) (fk : Bytes) (fiv : Nat) (id : N
     (hids : ∀ k' ∈ r.dataKeys, k'.id ≤ r.nextKeyID) (hk : r.lookup id = some k) :
     (r.latestDataKey now fk fiv).1.lookup id = some k ∧
     (∀ k' ∈ (r.latestDataKey now fk fiv).1.dataKeys, k'.id ≤ (r.latestDataKey now fk fiv).1.nextKeyID) := by
+  have hnew : (r.newDataKey now fk fiv).1.lookup id = some k ∧
+      (∀ k' ∈ (r.newDataKey now fk fiv).1.dataKeys, k'.id ≤ (r.newDataKey now fk fiv).1.nextKeyID) := by
+    unfold Registry.newDataKey
+    have hmem : k ∈ r.dataKeys := List.mem_of_find?_eq_some hk
+    have hkid : k.id = id := by
+      have := List.find?_some hk; simpa using this
+    have hle := hids k hmem
+    constructor
+    · simp only [Registry.lookup]
+      rw [List.find?_append]
+      have hf : (r.dataKeys.filter (fun k' => k'.id != r.nextKeyID + 1)).find? (fun k' => k'.id == id) = some k := by
+        rw [find?_filter_ne _ _ _ (by omega)]; exact hk
+      rw [hf]; rfl
+    · intro k' hk'
+      rcases List.mem_append.mp hk' with h | h
+      · have := hids k' (List.mem_filter.mp h).1; omega
+      · simp at h; subst h; exact Nat.le_refl _
   unfold Registry.latestDataKey
   by_cases hm : r.master = []
   · simp only [hm, if_true]; exact ⟨hk, hids⟩
   · simp only [hm, if_false]
-    by_cases hb : sinceNs now r.lastCreated < r.rotationNs
-    · simp only [hb, if_true]; exact ⟨hk, hids⟩
-    · simp only [hb, if_false]
-      have hmem : k ∈ r.dataKeys := List.mem_of_find?_eq_some hk
-      have hkid : k.id = id := by
-        have := List.find?_some hk; simpa using this
-      have hle := hids k hmem
-      constructor
-      · simp only [Registry.lookup]
-        rw [List.find?_append]
-        have hf : (r.dataKeys.filter (fun k' => k'.id != r.nextKeyID + 1)).find? (fun k' => k'.id == id) = some k := by
-          rw [find?_filter_ne _ _ _ (by omega)]; exact hk
-        rw [hf]; rfl
-      · intro k' hk'
-        rcases List.mem_append.mp hk' with h | h
-        · have := hids k' (List.mem_filter.mp h).1; omega
-        · simp at h; subst h; exact Nat.le_refl _
+    split
+    · split
+      · exact ⟨hk, hids⟩
+      · exact hnew
+    · exact hnew
 
 theorem le_maxNat {l : List Nat} {x : Nat} (h : x ∈ l) : x ≤ maxNat l := by
   induction l with
